@@ -88,7 +88,28 @@ func storesGlobal(fn *ssa.Function, g *ssa.Global) bool {
 
 func (r *Runner) typeSpecOf(t types.Type) *TypeSpec {
 	if n, ok := t.(*types.Named); ok && n.Obj() != nil && n.Obj().Pkg() != nil {
-		return r.specs.Types[n.Obj().Pkg().Path()+"."+n.Obj().Name()]
+		ts := r.specs.Types[n.Obj().Pkg().Path()+"."+n.Obj().Name()]
+		if ts != nil && r.curProp != "" && len(ts.GuardedOnly[r.curProp]) > 0 {
+			// property-scoped guarded_by declarations are merged in while that property is verified
+			key := n.Obj().Pkg().Path() + "." + n.Obj().Name() + "|" + r.curProp
+			if r.scopedTypes == nil {
+				r.scopedTypes = map[string]*TypeSpec{}
+			}
+			if m, ok := r.scopedTypes[key]; ok {
+				return m
+			}
+			cp := *ts
+			cp.Guarded = map[string]string{}
+			for k, v := range ts.Guarded {
+				cp.Guarded[k] = v
+			}
+			for k, v := range ts.GuardedOnly[r.curProp] {
+				cp.Guarded[k] = v
+			}
+			r.scopedTypes[key] = &cp
+			return &cp
+		}
+		return ts
 	}
 	return nil
 }
